@@ -3,6 +3,7 @@ import ast
 from ..rules_flow import Flow, API_MODULES
 from ..rules_alias import A4_params, A3_A5_shared, A7_determinism, nondet_sites
 from ..rules_state import A1_inventory
+from ..rules_tomo import A8_snapshot
 from ..report import AnalysisError
 from .. import pyfacts
 
@@ -26,6 +27,7 @@ def run(tree, rep, tier):
     # linear_index / graph_draw take index lists and drawing options, not the objects the property names; effects
     # that reach a protected parameter THROUGH them are still propagated by the summaries
     A4_params(rep, flow, modules=[m for m in sorted(prog.modules) if m not in ('linear_index', 'graph_draw')])
+    A8_snapshot(rep, flow)
     roots = prog.public_api(["stabilizer_circuits", "mub_circuits", "tomography", "connectivity_support", "stabilizer", "graph", "circuit_lookup"])
     A7_determinism(rep, flow, roots)
     # positive control for the zero-expected rule A7: the test helper must trigger it
@@ -39,5 +41,5 @@ def run(tree, rep, tier):
         rep.analysed["A7 positive control (tests/random_stabilizer.py)"] = f"{hits} site(s) flagged as expected"
     rep.trusted += ["Q1", "Q2", "Q3"]
     rep.decided += ["no shared mutable container or circuit escapes uncopied (A3) or is mutated in place (A5)", "cache keys complete and caches written only by their loader (A2, A1)",
-                    "protected parameters are never mutated (A4)", "no nondeterminism source reachable from the public API (A7)"]
+                    "protected parameters are never mutated (A4)", "returned measurement circuits hold a snapshot, not the caller's own qubit list (A8)", "no nondeterminism source reachable from the public API (A7)"]
     rep.not_decided += ["behaviour of Qiskit objects themselves (e.g. that QuantumCircuit.copy is deep enough) - trusted"]
